@@ -8,7 +8,7 @@ verus! {
 //@include contracts/r/prelude.rs
 #[verifier::external_body] pub struct LStr { _p: () }
 //@ltype String => LStr
-//@lift feos-core/src/parameter/mod.rs trait:Parameter::from_segments name=segment_lookup let_of=binary tail_locals=binary_map:Map<(LStr,LStr),real>;id1:LStr;id2:LStr ret=real
+//@lift feos-core/src/parameter/mod.rs trait:Parameter::from_segments name=segment_lookup let_of=@push.0.0 tail_locals=binary_map:Map<(LStr,LStr),real>;id1:LStr;id2:LStr ret=real
 //@end
 
 /// the record stored for the pair in this orientation, else in the other one, else the default (0)
